@@ -383,6 +383,9 @@ def run_property(pid, units, validate_ops, selftests, bounds, assumptions, uncov
             elif r['cex']['case'].get('kind') in ('table', 'freeindex', 'vars'):
                 import printcore
                 printcore.replay_print(rep, pid, name, r['cex'])
+            elif r['cex']['case'].get('kind') in ('dotbdd', 'dotparse'):
+                import dotcore
+                dotcore.replay_dot(rep, pid, name, r['cex'])
             elif r['cex']['case'].get('kind') == 'cli':
                 import maincore
                 maincore.replay_cli(rep, pid, name, r['cex'])
